@@ -655,7 +655,7 @@ pub fn case_strategy() -> impl Strategy<Value = Case> {
         2 => Just(Phase::AfterAttachOfTarget),
     ];
     (
-        proptest::collection::vec(prop_oneof![5 => Just(K_SLEEPER), 2 => Just(K_PARKED), 1 => Just(K_SPINNER), 2 => Just(K_EXITER), 1 => Just(K_NULLSP)], 1..13).prop_map(|mut v| {
+        proptest::collection::vec(prop_oneof![10 => Just(K_SLEEPER), 4 => Just(K_PARKED), 2 => Just(K_SPINNER), 4 => Just(K_EXITER), 2 => Just(K_NULLSP), 1 => Just(K_MAPCHURN), 1 => Just(K_FDCHURN)], 1..13).prop_map(|mut v| {
             // at most one null-SP burner per target
             let mut seen = false;
             for k in v.iter_mut() {
@@ -698,7 +698,7 @@ pub fn run(ctx: &mut LaneCtx) {
         SubSpec {
             name: "faults-and-signals",
             cases: (64, 2_000),
-            rule: "per generated scenario (1..12 sleeper/parked/spinner/exiter threads and at most one sandbox-style helper thread running with a null stack pointer, signal schedule of up to 9 entries over 7 phase points (with extra weight on the attach of the signalled thread itself) x thread x {SIGUSR1,SIGHUP,SIGTRAP,SIGURG,SIGRTMIN+0..3} x count 1..5, StopProcess fail point on/off, a size limit (none / 0..120000 bytes / any) in three scenarios of ten, exiters cued at the threads-enumerated hook): one fault-free dump with the schedule, then EVERY destination call failing as I/O error and as panic (exhaustive per scenario), sampled fail-point subsets, three natural hard errors (unreadable application memory, a blamed thread that does not exist, a crash instruction pointer inside the listed but unreadable [vvar] mapping) six dumps taken while the dumper may only open 0, 1, 2, 3, 5 or 8 more descriptors (every further open fails with EMFILE) and four dumps during which one family of files cannot be opened at all (memory map / memory file / per-thread status / all best-effort files) and four dumps on a thread to which the kernel refuses ptrace register requests (general-purpose set through both interfaces / floating-point set through both / debug registers / all); after each of them the liveness predicate, after the first the signal accounting; every scenario is non-trivial; distinct = hash of scenario",
+            rule: "per generated scenario (1..12 sleeper/parked/spinner/exiter threads, now and then a thread that keeps changing the memory map or the descriptor table, and at most one sandbox-style helper thread running with a null stack pointer, signal schedule of up to 9 entries over 7 phase points (with extra weight on the attach of the signalled thread itself) x thread x {SIGUSR1,SIGHUP,SIGTRAP,SIGURG,SIGRTMIN+0..3} x count 1..5, StopProcess fail point on/off, a size limit (none / 0..120000 bytes / any) in three scenarios of ten, exiters cued at the threads-enumerated hook): one fault-free dump with the schedule, then EVERY destination call failing as I/O error and as panic (exhaustive per scenario), sampled fail-point subsets, three natural hard errors (unreadable application memory, a blamed thread that does not exist, a crash instruction pointer inside the listed but unreadable [vvar] mapping) six dumps taken while the dumper may only open 0, 1, 2, 3, 5 or 8 more descriptors (every further open fails with EMFILE) and four dumps during which one family of files cannot be opened at all (memory map / memory file / per-thread status / all best-effort files) and four dumps on a thread to which the kernel refuses ptrace register requests (general-purpose set through both interfaces / floating-point set through both / debug registers / all); after each of them the liveness predicate, after the first the signal accounting; every scenario is non-trivial; distinct = hash of scenario",
             strategy: case_strategy().boxed(),
             max_shrink_iters: 40,
             log_current: true,
